@@ -45,5 +45,6 @@ Lemma tbl_bits : N.land sc_output_closed sc_input_closed = 0%N /\ sc_output_clos
 Proof. vm_compute. repeat split; discriminate. Qed.
 
 Lemma tbl_close_tags : sc_close_tag = str "</stream:stream>" /\
-  sc_close_ws_tag = str "<close xmlns=""urn:ietf:params:xml:ns:xmpp-framing""/>".
-Proof. vm_compute. split; reflexivity. Qed.
+  sc_close_ws_tag = str "<close xmlns=""urn:ietf:params:xml:ns:xmpp-framing""/>" /\
+  sc_send_records_opening_element = true.
+Proof. vm_compute. repeat split; reflexivity. Qed.
